@@ -43,26 +43,27 @@ def py_opt(regs):
 
 def structures(ctx):
     rng = ctx.rng
-    for n in range(1, (8 if ctx.quick else 10) + 1):
+    for n in range(1, (8 if ctx.quick else 9) + 1):
         for p in gen2d.all_matchings(n):
             if n <= 6 or gen2d.is_knotted(p):
                 yield ("exhaustive", p)
     for _ in range(5 if ctx.quick else 50):
         yield ("many-stems", gen2d.many_stems(rng, rng.randint(9, 13)))
-    for _ in range(60 if ctx.quick else 1500):
-        k = rng.randint(3, 8 if ctx.quick else 11)
+    for _ in range(60 if ctx.quick else 400):
+        k = rng.randint(3, 8 if ctx.quick else 9)
         p = gen2d.layout(rng, k, maxlen=rng.choice([2, 4, 6]), maxgap=rng.choice([0, 1, 2]))
         if gen2d.is_knotted(p):
             yield ("layout", p)
 
 
 def run(ctx):
-    ctx.coverage["rule"] = ("every pairing on <= N positions (N = 8 quick, 10 thorough; beyond 6 only knotted ones) + random knotted layouts with 3-8 "
-                            "(thorough 11) stems of unequal lengths. Non-trivial = conflict graph non-empty; distinct by pair array. "
+    ctx.coverage["rule"] = ("every pairing on <= N positions (N = 8 quick, 9 thorough; beyond 6 only knotted ones) + random knotted layouts with 3-8 "
+                            "(thorough 9) stems of unequal lengths. Non-trivial = conflict graph non-empty; distinct by pair array. "
                             "Counted separately: cases where FCFS is sub-optimal.")
     lp_expr, lp_exp, lp_case = [], [], []
     spec_expr, spec_exp, spec_case = [], [], []
     fcfs_subopt = 0
+    no_solver_call = []
     for kind, pairs in structures(ctx):
         seq = gen2d.seq_for(ctx.rng, len(pairs))
         b = impl2d.mk(seq, pairs)
@@ -85,18 +86,24 @@ def run(ctx):
             if rec.calls != 0 or any(c not in "()." for c in res):
                 ctx.violation("pseudoknot-free structure does not use round brackets only", {"case": case})
             continue
+        if rec.lp is None:
+            # the implementation did not consult the solver although stems cross: the model always does.  The spec checks below
+            # still decide whether the answer is right; the disagreement itself is reported if they find nothing.
+            no_solver_call.append(case)
+            ones = None
         # the LP really built vs. the model's
-        lp_expr.append(f"run_lp {be}")
-        lp_exp.append(impl2d.lp_summary(rec.lp, len(regs)))
-        lp_case.append(case)
-        ones = impl2d.ones_of(rec.lp)
-        lp_expr.append(f"run_feasible {be} {lit([(Nat(i), Nat(o)) for i, o in ones])}")
-        lp_exp.append(True)
-        lp_case.append(dict(case, solver_ones=ones))
-        import pulp
-        lp_expr.append(f"run_objective {be} {lit([(Nat(i), Nat(o)) for i, o in ones])}")
-        lp_exp.append(int(round(pulp.value(rec.lp.objective))))
-        lp_case.append(dict(case, solver_ones=ones))
+        if rec.lp is not None:
+          lp_expr.append(f"run_lp {be}")
+          lp_exp.append(impl2d.lp_summary(rec.lp, len(regs)))
+          lp_case.append(case)
+          ones = impl2d.ones_of(rec.lp)
+          lp_expr.append(f"run_feasible {be} {lit([(Nat(i), Nat(o)) for i, o in ones])}")
+          lp_exp.append(True)
+          lp_case.append(dict(case, solver_ones=ones))
+          import pulp
+          lp_expr.append(f"run_objective {be} {lit([(Nat(i), Nat(o)) for i, o in ones])}")
+          lp_exp.append(int(round(pulp.value(rec.lp.objective))))
+          lp_case.append(dict(case, solver_ones=ones))
         # spec: proper, optimal among all proper assignments, >= FCFS, stable
         levels = [gen2d.OPEN.index(res[r[0] - 1]) for r in regs]
         sc = py_score(regs, levels)
@@ -153,7 +160,11 @@ def run(ctx):
             ctx.violation("the MILP built by the code differs from the model's (or the solver's point is not feasible / objective differs)",
                           {"case": lp_case[i], "implementation": lp_exp[i], "model": shown[n] if n < len(shown) else None,
                            "correspondence": "Run.R2D." + lp_expr[i].split()[0]}, has_input=False)
+    for case in no_solver_call[:3]:
+        ctx.violation("the solver was not consulted although stems cross (the model always builds and solves the MILP)",
+                      {"case": case, "correspondence": "Run.R2D.run_lp"}, has_input=False)
+    ctx.coverage["knotted_cases_without_solver_call"] = len(no_solver_call)
     ctx.coverage["lp_compared"] = len(lp_expr) // 3
     ctx.coverage["opt_score_checked"] = len(spec_expr)
     ctx.coverage["exhaustive"] = True
-    ctx.coverage["exhaustive_bound"] = "all pairings on <= %d positions" % (8 if ctx.quick else 10)
+    ctx.coverage["exhaustive_bound"] = "all pairings on <= %d positions" % (8 if ctx.quick else 9)
